@@ -462,6 +462,46 @@ fn c04(case: &Case, ctx: &Ctx, rpt: &mut Report) {
             }
         }
     }
+    // A combinator has matched text exactly when it matches, and its capture zero is the whole
+    // path too (round 9: combinators x captures). Built from the text, from the compiled glob and
+    // next to a second pattern.
+    for (route, any) in [
+        ("any([text])", guarded(|| wax::any([case.expr]).ok()).flatten()),
+        ("any([compiled])", guarded(|| wax::any([case.glob.clone()]).ok()).flatten()),
+        ("any([text, \"zz/**\"])", guarded(|| wax::any([case.expr, "zz/**"]).ok()).flatten()),
+    ] {
+        let any = match any {
+            Some(a) => a,
+            None => continue,
+        };
+        for p in case.paths.iter().take(24) {
+            let cand = CandidatePath::from(p.as_str());
+            if let Some((is, mt)) = guarded(|| (any.is_match(p.as_str()), any.matched(&cand).map(|m| (m.get(0).map(String::from), m.complete().to_string())))) {
+                rpt.evaluations += 1;
+                rpt.bucket("combinator-matched-text-checked");
+                if mt.is_some() != is {
+                    rpt.disagreement(
+                        &ctx.known,
+                        "matched-text-presence-differs-from-is-match",
+                        None,
+                        json!({"expr": clip(case.expr), "route": route, "path": clip(p), "is_match": is, "matched_is_some": mt.is_some()}),
+                    );
+                    break;
+                }
+                if let Some((g0, complete)) = mt {
+                    if g0.as_deref() != Some(p.as_str()) || complete != *p {
+                        rpt.disagreement(
+                            &ctx.known,
+                            "capture-zero-is-not-the-whole-path",
+                            None,
+                            json!({"expr": clip(case.expr), "route": route, "path": clip(p), "get0": g0, "complete": complete}),
+                        );
+                        break;
+                    }
+                }
+            }
+        }
+    }
     let mut matched_paths = 0usize;
     let mut saw_nonparticipating = false;
     for p in &case.paths {
